@@ -1,8 +1,12 @@
-\* C15 quick: one call per protocol, scripts of up to 2 steps, the table as extracted from the tree under test
+\* C15 quick: one call per protocol, scripts of up to 2 steps, the table as extracted from the tree under test;
+\* of node-to-node chain-sync and of the block-fetch call that returns before the batch is in (timeouts behind the
+\* call's back) only the scripts whose silence lasts until the state timeout fires
 CONSTANTS
   MaxLen = 2
   ApiFilter = {"localtxsubmission.SubmitTx", "localtxmonitor.HasTx", "localstatequery.GetCurrentEra", "chainsync.Sync",
-               "blockfetch.GetBlock", "peersharing.GetPeers", "txsubmission.RequestTxIdsBlocking"}
+               "blockfetch.GetBlock", "peersharing.GetPeers", "txsubmission.RequestTxIdsBlocking",
+               "chainsync-ntn.Sync", "blockfetch.GetBlockRange"}
+  TmoOnly = {"chainsync-ntn.Sync", "blockfetch.GetBlockRange"}
   Design = "extracted"
   Emit = TRUE
 SPECIFICATION Spec
